@@ -599,7 +599,8 @@ func (r *W3Run) execCtlOps(st *ctlState) {
 			}
 			if h.done && h.err == nil && !overlap {
 				st.removed[op.A] = true
-				if target.alive && op.B == 0 && (r.c.Cfg.Seed>>(uint(i)%32))&1 == 1 {
+				if target.alive && (op.B == 2 || (op.B == 0 && (r.c.Cfg.Seed>>(uint(i)%32))&1 == 1)) {
+					// (B: 1 - always taken out of service, 2 - always left running, 0 - either)
 					// ... or forgets to: the removed node's process keeps running (it is never
 					// restarted and nothing is asserted about it); the remaining members must
 					// not depend on it going away, in particular not when it was the leader
